@@ -121,6 +121,45 @@ def run(ck):
               '%s has an erase%s reachable from Node::tick (sites: %s)' %
               (field.split('::', 1)[1], detail, [f.name for f, _ in sites][:4]))
 
+    # ---- (sweep-all) every element found expired by a sweep loop is erased in that same pass ------------
+    from sa.paths import must_pass_before_next_iteration
+    for field, fq, also in ((CS + 'chunks_', CS + 'sweep_expired', None), (KT + 'shard_table_', KT + 'sweep_expired', None),
+                            (N + 'manifest_cache_', N + 'tick', N + 'swarm_plans_')):
+        f = P.fn(fq)
+        ck.touch(f)
+        cfgf = Cfg.of(f)
+
+        def erases(field_):
+            out = []
+            for i in f.walk():
+                nd = f.nodes[i]
+                if nd['k'] == 'CXXMemberCallExpr' and nd.get('callee', '').endswith('::erase'):
+                    r = f.receiver(i)
+                    if r is not None and f.nodes[r].get('m') == field_:
+                        out.append(i)
+            return out
+        er = erases(field)
+        lps = [l for l in loops(f) if any(f.is_in(e, l) for e in er)]
+        ck.floor('C05.sweep', 'sweep loop over %s in %s' % (field.split('::')[-1], f.name), len(lps), 1)
+        n_edges = 0
+        for lp in lps:
+            for bid, succ, label in cfgf.pass_edges(expired_fact(f, names=('expires_at',))):
+                cnd = cfgf.blocks[bid].get('cond')
+                if cnd is None or not f.is_in(cnd, lp):
+                    continue
+                n_edges += 1
+                wit = must_pass_before_next_iteration(f, succ, lambda e: e in er or any(f.is_in(x, e) for x in er) and f.nodes[e]['k'] in ('ExprWithCleanups', 'BinaryOperator', 'CXXOperatorCallExpr'), lp)
+                ck.ob('C05.sweep', 'C05.sweep/%s/%s#%d' % (f.name, field.split('::')[-1], n_edges), wit is None, f.loc(cnd),
+                      'in the sweep loop over %s, an entry found expired (now >= deadline) is always erased before the loop moves on '
+                      '— no condition other than expiry can keep it' % field.split('::')[-1], wit)
+        ck.floor('C05.sweep', 'expiry tests in the sweep loop over %s' % field.split('::')[-1], n_edges, 1)
+        if also:
+            er2 = erases(also)
+            mp = must_precede(f, er, lambda e: e in er2 or any(f.is_in(x, e) for x in er2) and f.nodes[e]['k'] == 'ExprWithCleanups')
+            ck.ob('C05.sweep', 'C05.sweep/%s/%s-with-%s' % (f.name, also.split('::')[-1], field.split('::')[-1]), bool(er2) and not mp, f.loc(),
+                  'whenever an expired %s entry is erased, the matching %s entry is erased first' % (field.split('::')[-1], also.split('::')[-1]),
+                  mp[0][1] if mp else None)
+
     # ---- (dht) --------------------------------------------------------------------------------
     se = P.fn(KT + 'sweep_expired')
     ck.touch(se)
